@@ -20,11 +20,11 @@ MODE_TABLE = {           # PinMode member -> (o, oe, alt)   (documented table; `
 def register_roles(ctor):
     """attr -> register name, from `self._x = <builder>.add("Name", ...)` stores, in program order."""
     roles = []
-    for key, (val, gen, ln) in ctor.stores.items():
+    for pos, (key, (val, gen, ln)) in enumerate(ctor.stores.items()):
         if val[0] == 'call' and val[1][0] == 'attr' and val[1][2] == 'add' and val[2] and val[2][0][0] == 'const':
-            roles.append((ln, val[2][0][1], ir.parse(key), val))
-    roles.sort()
-    return roles
+            roles.append((ln, pos, val[2][0][1], ir.parse(key), val))
+    roles.sort(key=lambda r: (r[0], r[1]))              # program order: by line, and within one line in the order the stores were met
+    return [(ln, name, key, val) for ln, pos, name, key, val in roles]
 
 
 def output_action_class(idx):
